@@ -107,6 +107,13 @@ void Action__update_max_duration(struct Action* self, double delta)
     /*@ max_duration_consumed_exactly_or_zero */
     __CPROVER_ensures(vf_exc == 0);
 
+/* effective rate: value of the LMM variable times the action's factor; 0 for an action without variable */
+double Action__get_rate(struct Action* self)
+    __CPROVER_requires(IS_ACTION(self) && WF_ACTION(*self)) __CPROVER_assigns()
+    __CPROVER_ensures(self->variable_ != NULL || __CPROVER_return_value == 0.0) /*@ rate_without_variable_is_zero */
+    __CPROVER_ensures(self->variable_ == NULL || !FIN(g_var.value_) || !FIN(self->factor_) ||
+                      __CPROVER_return_value == g_var.value_ * self->factor_) /*@ rate_is_value_times_factor */;
+
 /* finishing an action: dated now, nothing remains, state handed to set_state */
 void Action__finish(struct Action* self, int state)
     __CPROVER_requires(IS_ACTION(self) && vf_exc == 0)
@@ -121,7 +128,8 @@ void Action__finish(struct Action* self, int state)
 #define LAZY_PRE(a)                                                                                                    \
   (WF_ACTION(a) && PREC_OK && vf_exc == 0 && FIN(now) && now == g_clock && FIN((a).last_update_) &&                    \
    (a).last_update_ <= now && FIN((a).last_value_) && (a).last_value_ >= 0.0 && FIN((a).remains_) &&                   \
-   (a).remains_ >= 0.0)
+   (a).remains_ >= 0.0 && FIN(now - (a).last_update_) &&                                                            \
+   ((a).variable_ == NULL || (FIN(g_var.value_) && FIN((a).factor_))))
 #define OLD_CONSUMED(a) (__CPROVER_old((a).last_value_) * (now - __CPROVER_old((a).last_update_)))
 
 void CpuAction__update_remains_lazy(struct CpuAction* self, double now)
@@ -254,6 +262,18 @@ void harness(void)
 {
   setup();
   Action__update_max_duration(nondet_bool() ? &CPU_A : &NET_A, nondet_double());
+  VF_CANARY_POINT;
+}
+#endif
+#if defined(H_get_rate) || defined(H_get_rate_net)
+void harness(void)
+{
+  setup();
+#ifdef H_get_rate /* one harness per object: a symbolic choice between two objects makes the FP product undecided */
+  Action__get_rate(&CPU_A);
+#else
+  Action__get_rate(&NET_A);
+#endif
   VF_CANARY_POINT;
 }
 #endif
